@@ -7,6 +7,7 @@ import (
 	"os"
 	"regexp"
 	"runtime/debug"
+	"runtime/metrics"
 	"strconv"
 	"strings"
 	"sync"
@@ -52,41 +53,41 @@ type DbgAgg struct {
 	Lines      int            `json:"lines"`
 	Kinds      map[string]int `json:"kinds"`
 	MaxDepth   int            `json:"maxdepth"`
-	PosBad     string         `json:"posbad,omitempty"`   // first line whose (line,col) != posfn(offset)
-	Reentry    string         `json:"reentry,omitempty"`  // first (rule,offset) entered while already active
-	Unbalanced string         `json:"unbal,omitempty"`    // first < without matching >
-	Positions  int            `json:"positions"`          // distinct offsets seen
+	PosBad     string         `json:"posbad,omitempty"`  // first line whose (line,col) != posfn(offset)
+	Reentry    string         `json:"reentry,omitempty"` // first (rule,offset) entered while already active
+	Unbalanced string         `json:"unbal,omitempty"`   // first < without matching >
+	Positions  int            `json:"positions"`         // distinct offsets seen
 	Clones     int            `json:"clones"`
 	Restores   int            `json:"restores"`
 }
 
 // Result is what the child reports for one case.
 type Result struct {
-	ID           string   `json:"id"`
-	Val          string   `json:"val"`
-	ErrNil       bool     `json:"errnil"`
-	ErrType      string   `json:"errtype,omitempty"`
-	Errs         []ErrRec `json:"errs,omitempty"`
-	ErrStr       string   `json:"errstr,omitempty"`
-	End          int      `json:"end"`
-	ExprCnt      uint64   `json:"exprcnt"`
-	Trace        []string `json:"trace,omitempty"`
-	TraceLen     int      `json:"tracelen"`
-	Dropped      int      `json:"dropped,omitempty"`
-	Panic        string   `json:"panic,omitempty"`
-	InputChanged bool     `json:"inchg,omitempty"`
-	MemoEntries  int      `json:"memo,omitempty"`
-	ChoiceEvals  int      `json:"choiceevals,omitempty"` // sum of Stats.ChoiceAltCnt = choice expressions actually evaluated
-	GLog         string   `json:"glog,omitempty"`
-	FinalState   string   `json:"fstate,omitempty"`
+	ID           string    `json:"id"`
+	Val          string    `json:"val"`
+	ErrNil       bool      `json:"errnil"`
+	ErrType      string    `json:"errtype,omitempty"`
+	Errs         []ErrRec  `json:"errs,omitempty"`
+	ErrStr       string    `json:"errstr,omitempty"`
+	End          int       `json:"end"`
+	ExprCnt      uint64    `json:"exprcnt"`
+	Trace        []string  `json:"trace,omitempty"`
+	TraceLen     int       `json:"tracelen"`
+	Dropped      int       `json:"dropped,omitempty"`
+	Panic        string    `json:"panic,omitempty"`
+	InputChanged bool      `json:"inchg,omitempty"`
+	MemoEntries  int       `json:"memo,omitempty"`
+	ChoiceEvals  int       `json:"choiceevals,omitempty"` // sum of Stats.ChoiceAltCnt = choice expressions actually evaluated
+	GLog         string    `json:"glog,omitempty"`
+	FinalState   string    `json:"fstate,omitempty"`
 	StateIDs     []uintptr `json:"-"`
-	Dbg          *DbgAgg  `json:"dbg,omitempty"`
-	Died         string   `json:"died,omitempty"`
-	Timeout      bool     `json:"timeout,omitempty"`
-	Retried      bool     `json:"retried,omitempty"`
-	Cnt1         uint64   `json:"cnt1,omitempty"`
-	Cnt2         uint64   `json:"cnt2,omitempty"`
-	NanoS        int64    `json:"ns,omitempty"`
+	Dbg          *DbgAgg   `json:"dbg,omitempty"`
+	Died         string    `json:"died,omitempty"`
+	Timeout      bool      `json:"timeout,omitempty"`
+	Retried      bool      `json:"retried,omitempty"`
+	Cnt1         uint64    `json:"cnt1,omitempty"`
+	Cnt2         uint64    `json:"cnt2,omitempty"`
+	NanoS        int64     `json:"ns,omitempty"`
 }
 
 // RunFunc is implemented by the in-package harness of every generated parser.
@@ -310,6 +311,8 @@ func Main() {
 	var started atomic.Int64
 	// watchdog: a case running longer than timeout is reported with two samples of the live
 	// expression counter, then the process exits (the driver restarts after that case).
+	heapSample := []metrics.Sample{{Name: "/memory/classes/heap/objects:bytes"}}
+	const hardHeap = 4 << 30
 	go func() {
 		for {
 			time.Sleep(200 * time.Millisecond)
@@ -318,9 +321,17 @@ func Main() {
 			if id == nil || st == 0 {
 				continue
 			}
-			if time.Since(time.Unix(0, st)) > timeout {
+			// a case whose live heap explodes is treated like one that does not return (the machine has
+			// no memory limit of its own): same report, taken earlier
+			metrics.Read(heapSample)
+			heavy := heapSample[0].Value.Kind() == metrics.KindUint64 && heapSample[0].Value.Uint64() > hardHeap
+			if heavy || time.Since(time.Unix(0, st)) > timeout {
 				c1 := liveCnt()
-				time.Sleep(time.Second)
+				if heavy {
+					time.Sleep(100 * time.Millisecond)
+				} else {
+					time.Sleep(time.Second)
+				}
 				c2 := liveCnt()
 				if cur.Load() != id {
 					continue
